@@ -1,106 +1,453 @@
-"""Translator for C03: the exception-handler table of main()/run_refurb(), by fault injection."""
+"""Translator for C03: what main()/run_refurb() do with an exception, by fault injection.
+
+One table, `cells`: for every step of main()/run_refurb() (Model/Pipeline.lean, `Main.Step`) and every exception
+kind, REAL runs of `refurb.main.main()` over a three-file project (each file: a diagnosable line, a marker
+statement, a second diagnosable line) with that step made to raise that exception — for the per-file steps at the
+MIDDLE file, for `visit` in the middle of its traversal — and what was observed: did the exception leave main(),
+what was printed (the message, error lines, nothing), the exit status, and which of the diagnostics found before
+and after the fault are still printed, per file.  The older, coarser table (`handlers`) is derived from the same
+observations.
+
+The worker below is also what harness/props/c03.py uses to drive multi-fault runs (the same patch points).
+"""
 
 from __future__ import annotations
 
 import json
+import re
 import subprocess
 import textwrap
 from concurrent.futures import ThreadPoolExecutor
+from pathlib import Path
+from typing import Any
 
 from . import core, extract
 from .extract import HEADER
 
+# the stages of the older automaton (Model/Pipeline.lean, `Stage`): a subset of the steps
 STAGES = ["loadSettings", "processOptions", "build", "loadChecks", "visit", "readSource", "timing", "format"]
-EXCS = {
-    "valueError": "ValueError('boom')",
-    "typeError": "TypeError('boom')",
-    "systemExit": "SystemExit(2)",
-    "compileError": "__import__('mypy.errors').errors.CompileError(['f.py:1: error: boom'])",
-    "recursionError": "RecursionError('boom')",
-    "notImplementedError": "NotImplementedError('boom')",
-    "unicodeDecodeError": "UnicodeDecodeError('utf-8', b'\\xe9', 0, 1, 'boom')",
-    "importError": "ModuleNotFoundError('boom')",
-    "osError": "PermissionError('boom')",
-    "keyError": "KeyError('boom')",
-    "attributeError": "AttributeError('boom')",
-    "assertionError": "AssertionError('boom')",
-}
+STEPS = ["loadSettings", "early", "explain", "processOptions", "build", "loadChecks", "visit", "timing", "readSource", "format", "print"]
+PER_FILE = ("visit", "readSource")
+EXCS = [
+    "valueError", "typeError", "systemExit", "compileError", "recursionError", "notImplementedError", "unicodeDecodeError",
+    "importError", "osError", "keyError", "attributeError", "assertionError", "unicodeEncodeError",
+]
+
+# what mypy "wrote" before an injected SystemExit / the messages of an injected CompileError
+POPTS_ERR = ["usage: BOOM", "mypy: error: BOOM"]
+POPTS_OUT = ["zz.py:1: error: BOOM-stdout"]
+COMPILE_MSGS = ["mypy: can't read file 'BOOM'", "zz.py:1: error: BOOM-compile"]
+
+MARK = "FAULT_MARK_%d"
+
+
+def probe_file(i: int) -> str:
+    """one diagnostic before the marker statement, one after (FURB123, FURB112: both enabled by default)"""
+    return f"x{i} = int(0)\n{MARK % i} = 0\ny{i} = list()\n"
+
+
+# ---------------------------------------------------------------------------------------------------------------
+# the worker: one real run of refurb.main.main() under a fault plan
 
 WORKER = textwrap.dedent(
-    """
-    import io, json, sys, contextlib
+    r'''
+    import contextlib, io, json, os, sys, tempfile
+
+    plan = json.load(open(sys.argv[1]))
+    os.makedirs("tmp", exist_ok=True)
+    tempfile.tempdir = os.path.abspath("tmp")
+
     import refurb.main as m
-    stage, exc_src = sys.argv[1], sys.argv[2]
-    def boom(*a, **k):
-        raise eval(exc_src)
-    open("f.py", "w").write("x = int(0)  # noqa: FURB999\\n")
-    open("pyproject.toml", "w").write("")
-    if stage == "loadSettings": m.load_settings = boom
-    elif stage == "processOptions": m.process_options = boom
-    elif stage == "build": m.build = boom
-    elif stage == "loadChecks": m.load_checks = boom
-    elif stage == "visit": m.RefurbVisitor.accept = boom
-    elif stage == "readSource": m.get_source_lines = boom
-    elif stage == "timing": m.output_timing_stats = boom
-    elif stage == "format": m.format_errors = boom
+
+    raised = []          # str(e) of every exception raised by a patch, in order
+
+
+    def mk(kind, tag):
+        msg = "BOOM-%s-%s" % (kind, tag)
+        if kind == "valueError":
+            e = ValueError("refurb: " + msg)      # refurb's own ValueErrors all carry a `refurb: ` message
+        elif kind == "typeError":
+            e = TypeError(msg)
+        elif kind == "systemExit":
+            e = SystemExit(2)
+        elif kind == "compileError":
+            from mypy.errors import CompileError
+            e = CompileError(list(plan.get("compile", [])))
+        elif kind == "recursionError":
+            e = RecursionError(msg)
+        elif kind == "notImplementedError":
+            e = NotImplementedError(msg)
+        elif kind == "unicodeDecodeError":
+            e = UnicodeDecodeError("utf-8", b"\xe9", 0, 1, msg)
+        elif kind == "unicodeEncodeError":
+            e = UnicodeEncodeError("utf-8", "\ud800", 0, 1, msg)
+        elif kind == "importError":
+            e = ModuleNotFoundError(msg)
+        elif kind == "osError":
+            e = PermissionError(msg)
+        elif kind == "keyError":
+            e = KeyError(msg)
+        elif kind == "attributeError":
+            e = AttributeError(msg)
+        elif kind == "assertionError":
+            e = AssertionError(msg)
+        else:
+            raise RuntimeError("unknown exception kind " + kind)
+        raised.append(str(e))
+        return e
+
+
+    def boom(step):
+        kind = plan["faults"][step]
+
+        def f(*a, **k):
+            if step == "processOptions":
+                p = plan.get("popts", {})
+                if k.get("stderr") is not None:
+                    k["stderr"].write("".join(l + "\n" for l in p.get("err", [])))
+                if k.get("stdout") is not None:
+                    k["stdout"].write("".join(l + "\n" for l in p.get("out", [])))
+            raise mk(kind, step)
+
+        return f
+
+
+    KINDS = {
+        "ValueError": "valueError", "TypeError": "typeError", "SystemExit": "systemExit", "CompileError": "compileError",
+        "RecursionError": "recursionError", "NotImplementedError": "notImplementedError", "UnicodeDecodeError": "unicodeDecodeError",
+        "ImportError": "importError", "ModuleNotFoundError": "importError", "OSError": "osError", "PermissionError": "osError",
+        "FileNotFoundError": "osError", "IsADirectoryError": "osError", "KeyError": "keyError", "AttributeError": "attributeError",
+        "AssertionError": "assertionError", "UnicodeEncodeError": "unicodeEncodeError",
+    }
+    natural = {}         # step -> what the REAL step function raised on its own (observed at the boundary, then re-raised)
+
+
+    def watch(step, fn):
+        def f(*a, **k):
+            try:
+                return fn(*a, **k)
+            except BaseException as e:
+                rec = {"kind": KINDS.get(type(e).__name__, "other:" + type(e).__name__), "msg": str(e)}
+                if step == "processOptions" and isinstance(e, SystemExit):
+                    rec["err"] = k["stderr"].getvalue().splitlines()
+                    rec["out"] = k["stdout"].getvalue().splitlines()
+                if step == "build" and type(e).__name__ == "CompileError":
+                    rec["msgs"] = list(e.messages)
+                natural[step] = rec
+                raised.append(str(e))
+                raise
+
+        return f
+
+
+    m.load_settings = watch("loadSettings", m.load_settings)
+    m.explain = watch("explain", m.explain)
+    m.process_options = watch("processOptions", m.process_options)
+    m.build = watch("build", m.build)
+    m.load_checks = watch("loadChecks", m.load_checks)
+    m.output_timing_stats = watch("timing", m.output_timing_stats)
+    m.format_errors = watch("format", m.format_errors)
+
+    faults = plan.get("faults", {})
+    visit = {("FAULT_MARK_%s" % i): k for i, k in plan.get("visit", {}).items()}
+    read = {plan["files"][int(i)]: k for i, k in plan.get("read", {}).items()}
+
+    if "loadSettings" in faults:
+        m.load_settings = boom("loadSettings")
+    if "early" in faults:
+        m.usage = m.version = m.generate = boom("early")
+    elif plan.get("gen_stub"):
+        m.generate = lambda: print("generated (stub of the interactive dialogue)")
+    if "explain" in faults:
+        m.explain = boom("explain")
+    if "processOptions" in faults:
+        m.process_options = boom("processOptions")
+    if "build" in faults:
+        m.build = boom("build")
+    if "loadChecks" in faults:
+        m.load_checks = boom("loadChecks")
+    elif visit:
+        # a check that raises when the traversal reaches the marker statement of a planned file
+        from mypy.nodes import AssignmentStmt, NameExpr
+        from refurb.error import Error
+
+        orig_load_checks = m.load_checks
+
+        def fault_check(node: AssignmentStmt, errors: list[Error]) -> None:
+            lv = node.lvalues[0] if node.lvalues else None
+            if isinstance(lv, NameExpr) and lv.name in visit:
+                raise mk(visit[lv.name], "visit-" + lv.name)
+
+        def load_checks(settings):
+            checks = orig_load_checks(settings)
+            checks[AssignmentStmt].append(fault_check)
+            return checks
+
+        m.load_checks = load_checks
+    if "timing" in faults:
+        m.output_timing_stats = boom("timing")
+    if read:
+        orig_gsl = m.get_source_lines
+
+        def get_source_lines(path):
+            if path in read:
+                raise mk(read[path], "read-" + path)
+            return orig_gsl(path)
+
+        get_source_lines.cache_clear = orig_gsl.cache_clear
+        m.get_source_lines = get_source_lines
+    if "format" in faults:
+        m.format_errors = boom("format")
+    if "print" in faults and not plan.get("early"):
+        import builtins
+
+        fired = []
+
+        def fake_print(*a, **k):
+            # the handlers print the exception OBJECT; only `print(formatted_errors)` prints a str here
+            if not fired and a and isinstance(a[0], str):
+                fired.append(1)
+                raise mk(faults["print"], "print")
+            return builtins.print(*a, **k)
+
+        m.print = fake_print
+
     out = io.StringIO()
-    res = {}
     try:
         with contextlib.redirect_stdout(out):
-            rc = m.main(["f.py", "--quiet"])
-        res = {"r": "returned", "rc": rc, "stdout": out.getvalue()}
+            rc = m.main(list(plan["argv"]))
+        res = {"r": "returned", "rc": rc}
     except BaseException as e:
-        res = {"r": "raised", "type": type(e).__name__, "stdout": out.getvalue()}
+        res = {"r": "raised", "type": type(e).__name__, "msg": str(e)[:300]}
+    res["stdout"] = out.getvalue()
+    res["raised"] = raised
+    res["natural"] = natural
+    res["tmp_left"] = sorted(os.listdir("tmp"))
     json.dump(res, open("_out.json", "w"))
-    """
+    '''
 )
 
-_cache: dict[str, list[tuple[str, str, str, dict]]] = {}
+
+def run_plan(worker: Path, d: Path, plan: dict[str, Any], timeout: int = 300) -> dict[str, Any]:
+    """one real run in a fresh process, cwd = `d` (which already holds the project files)"""
+    (d / "_plan.json").write_text(json.dumps(plan))
+    p = subprocess.run([core.PY, str(worker), "_plan.json"], cwd=d, capture_output=True, text=True, timeout=timeout, env=core.py_env())
+    if p.returncode != 0 or not (d / "_out.json").exists():
+        return {"r": "worker-died", "stderr": p.stderr[-800:], "stdout": "", "raised": [], "tmp_left": []}
+    res = json.loads((d / "_out.json").read_text())
+    res["stderr"] = p.stderr[-800:] if p.stderr.strip() else ""
+    return res
+
+
+MYPY_LINE = re.compile(r"^.*: (error|note): .*$")
+
+
+def classify(stdout: str, files: list[str], raised: list[str], texts: dict[str, str] | None = None, early: bool = False) -> list[str]:
+    """stdout -> the sequence of line KINDS of the model: `diag:i`, `refurb`, `mypy`, `bare`, `dump:i`, `hint`, `info`
+    (a maximal run of lines of no other kind is ONE `info` — with `early`, the text of an early exit, whatever it looks like;
+    a diagnostic naming a path outside `files` is `diag:?path`)"""
+    texts = texts or {}
+    lines = stdout.split("\n")
+    if lines and lines[-1] == "":
+        lines.pop()
+    kinds: list[str] = []
+    i = 0
+    idx = {f: k for k, f in enumerate(files)}
+    blocks = sorted((m.split("\n") for m in raised if m), key=len, reverse=True)
+    while i < len(lines):
+        line = lines[i]
+        m = core.DIAG_RE.match(line)
+        block = next((b for b in blocks if lines[i : i + len(b)] == b), None)
+        if line in texts:
+            kinds.append(texts[line])
+        elif block:
+            # the message of a raised exception, printed as it is (it may span several lines: ONE message)
+            kinds.append("refurb" if line.startswith("refurb: ") else "bare")
+            i += len(block) - 1
+        elif early:
+            if not (kinds and kinds[-1] == "info"):
+                kinds.append("info")
+        elif m:
+            kinds.append("diag:%s" % idx.get(m.group("file"), "?" + m.group("file")))
+        elif line == "" and i + 1 < len(lines) and lines[i + 1] == core.HINT:
+            kinds.append("hint")
+            i += 1
+        elif line.startswith("MypyFile:") and line.endswith("("):
+            # mypy's StrConv: one node per line, nesting shown by parentheses; the dump ends where they balance
+            path = lines[i + 1].strip() if i + 1 < len(lines) else ""
+            depth = line.count("(") - line.count(")")
+            while depth > 0 and i + 1 < len(lines):
+                i += 1
+                depth += lines[i].count("(") - lines[i].count(")")
+            kinds.append("dump:%s" % idx.get(path, "?" + path))
+        elif line.startswith("refurb: "):
+            kinds.append("refurb")
+        elif MYPY_LINE.match(line):
+            kinds.append("mypy")
+        elif kinds and kinds[-1] == "info":
+            pass
+        else:
+            kinds.append("info")
+        i += 1
+    return kinds
+
+
+def observed_outcome(res: dict[str, Any], files: list[str], texts: dict[str, str] | None = None, early: bool = False) -> dict[str, Any]:
+    """the real run, in the vocabulary of `Main.Outcome`"""
+    temp = bool(res.get("tmp_left"))
+    if res["r"] != "returned":
+        return {"r": "traceback", "temp": temp}
+    return {"r": "clean", "exit": res["rc"], "out": classify(res["stdout"], files, res.get("raised", []), texts, early), "temp": temp}
+
+
+# ---------------------------------------------------------------------------------------------------------------
+# the table
+
+_cache: dict[str, Any] = {}
+
+
+def observe_all() -> list[dict[str, Any]]:
+    if "cells" not in _cache:
+        # every Python file of refurb can influence what main() does with an exception
+        _cache["cells"] = core.cached_json("c03cells-v3", ["refurb/**/*.py"], _observe_all)
+    return _cache["cells"]
+
+
+def single_fault_plan(step: str, exc: str) -> dict[str, Any]:
+    files = ["a.py", "b.py", "c.py"]
+    plan: dict[str, Any] = {"files": files, "argv": list(files), "faults": {}, "visit": {}, "read": {}, "popts": {"err": POPTS_ERR, "out": POPTS_OUT}, "compile": COMPILE_MSGS}
+    if step == "visit":
+        plan["visit"] = {"1": exc}
+    elif step == "readSource":
+        plan["read"] = {"1": exc}
+    else:
+        plan["faults"] = {step: exc}
+    if step == "early":
+        plan["argv"] = ["--help"]
+        plan["early"] = "help"
+    elif step == "explain":
+        plan["argv"] = ["--explain", "FURB123"]
+        plan["early"] = "explain"
+    return plan
+
+
+def _observe_all() -> list[dict[str, Any]]:
+    with core.scratch("rv-c03h-") as root:
+        worker = root / "_worker.py"
+        worker.write_text(WORKER)
+
+        def one(job: tuple[int, tuple[str, str]]) -> dict[str, Any]:
+            i, (step, exc) = job
+            d = root / f"j{i}"
+            d.mkdir()
+            (d / "pyproject.toml").write_text("")
+            for k, f in enumerate(["a.py", "b.py", "c.py"]):
+                (d / f).write_text(probe_file(k))
+            plan = single_fault_plan(step, exc)
+            res = run_plan(worker, d, plan)
+            cell, why = cell_of(step, exc, res, plan["files"])
+            return {"step": step, "exc": exc, "cell": cell, "why": why, "obs": {k: (v[:600] if isinstance(v, str) else v) for k, v in res.items()}}
+
+        jobs = list(enumerate((s, e) for s in STEPS for e in EXCS))
+        with ThreadPoolExecutor(16) as ex:
+            return list(ex.map(one, jobs))
+
+
+def cell_of(step: str, exc: str, res: dict[str, Any], files: list[str]) -> tuple[dict[str, Any] | None, str]:
+    """read one observation as a `Main.Cell`; (None, why) when main() did something the model has no word for"""
+    if res["r"] == "worker-died":
+        return None, "the worker died: " + res.get("stderr", "")[-300:]
+    if res["r"] == "raised":
+        return {"k": "uncaught"}, res.get("type", "")
+    rc = res["rc"]
+    kinds = classify(res["stdout"], files, res.get("raised", []), early=step in ("early", "explain"))
+    diags = [k for k in kinds if k.startswith("diag:")]
+    rest = [k for k in kinds if not k.startswith("diag:") and k != "hint"]
+    counts = [diags.count(f"diag:{i}") for i in range(len(files))]
+    if len(diags) != sum(counts):
+        return None, f"a diagnostic names an unknown file: {kinds}"
+    if exc == "systemExit" and kinds == ["refurb"] * len(POPTS_ERR) + ["mypy"] * len(POPTS_OUT) and rc == 1:
+        return {"k": "lines"}, "stderr lines as `refurb:` lines, then the stdout lines"
+    if exc == "compileError" and kinds == ["refurb", "mypy"] and rc == 1:
+        return {"k": "lines"}, "messages with `mypy: ` rewritten to `refurb: `"
+    msg_kind = "refurb" if exc == "valueError" else "bare"
+    if step in ("early", "explain"):
+        if kinds == ["info"] and rc == 0:
+            return {"k": "resume", "keep": True, "cont": True}, "swallowed"
+        if kinds in ([msg_kind], []):
+            return {"k": "exits", "msg": bool(kinds), "code": rc, "keeps": False}, "handler ends the run"
+        return None, f"unreadable: rc={rc} kinds={kinds}"
+    if not diags:
+        if rest in ([msg_kind], []):
+            return {"k": "exits", "msg": bool(rest), "code": rc, "keeps": False}, "handler ends the run, diagnostics discarded"
+        return None, f"unreadable: rc={rc} kinds={kinds}"
+    if rest == [msg_kind] and kinds[len(diags)] == msg_kind:
+        return {"k": "exits", "msg": True, "code": rc, "keeps": True}, "handler ends the run after printing the diagnostics collected so far"
+    if rest or rc != 1:
+        return None, f"unreadable: rc={rc} kinds={kinds}"
+    full = 2
+    if step == "visit":
+        if counts[0] == full and counts[1] in (0, 1) and counts[2] in (0, full):
+            return {"k": "resume", "keep": counts[1] == 1, "cont": counts[2] == full}, f"swallowed; diagnostics per file {counts}"
+        return None, f"unreadable: diagnostics per file {counts}"
+    if counts == [full] * 3:
+        return {"k": "resume", "keep": True, "cont": True}, "swallowed"
+    return None, f"unreadable: diagnostics per file {counts}"
+
+
+def cells() -> dict[tuple[str, str], dict[str, Any]]:
+    out = {}
+    bad = []
+    for r in observe_all():
+        if r["cell"] is None:
+            bad.append(f"({r['step']}, {r['exc']}): {r['why']}")
+        else:
+            out[(r["step"], r["exc"])] = r["cell"]
+    if bad:
+        raise RuntimeError("main() handles an injected exception in a way the model cannot express: " + "; ".join(bad[:6]))
+    return out
+
+
+def lean_cell(c: dict[str, Any]) -> str:
+    if c["k"] == "uncaught":
+        return ".uncaught"
+    if c["k"] == "lines":
+        return ".lines"
+    if c["k"] == "exits":
+        return "(.exits %s %d %s)" % (extract.lbool(c["msg"]), c["code"], extract.lbool(c["keeps"]))
+    return "(.resume %s %s)" % (extract.lbool(c["keep"]), extract.lbool(c["cont"]))
+
+
+def coarse(c: dict[str, Any]) -> str:
+    """the older three-valued reading of a cell"""
+    return {"uncaught": "uncaught", "lines": "errorLine", "exits": "errorLine", "resume": "suppressed"}[c["k"]]
 
 
 def inject_all() -> list[tuple[str, str, str, dict]]:
-    if "t" not in _cache:
-        # every Python file of refurb can influence what main() does with an exception
-        rows = core.cached_json("handlers", ["refurb/**/*.py"], lambda: [list(r) for r in _inject_all()])
-        _cache["t"] = [tuple(r) for r in rows]
-    return _cache["t"]
-
-
-def _inject_all() -> list[tuple[str, str, str, dict]]:
-    rows: list[tuple[str, str, str, dict]] = []
-    with core.scratch("rv-c03h-") as root:
-        (root / "_worker.py").write_text(WORKER)
-
-        def one(job):
-            i, (stage, exc) = job
-            d = root / f"j{i}"
-            d.mkdir()
-            p = subprocess.run([core.PY, str(root / "_worker.py"), stage, EXCS[exc]], cwd=d, capture_output=True, text=True, timeout=300, env=core.py_env())
-            if p.returncode != 0 or not (d / "_out.json").exists():
-                return stage, exc, "uncaught", {"r": "worker-died", "stderr": p.stderr[-500:]}
-            res = json.loads((d / "_out.json").read_text())
-            if res["r"] == "raised":
-                return stage, exc, "uncaught", res
-            # returned: was the normal diagnostic still printed (exception swallowed) or an error line (exit 1 without it)?
-            if "[FURB123]" in res["stdout"]:
-                return stage, exc, "suppressed", res
-            return stage, exc, "errorLine", res
-
-        jobs = list(enumerate((s, e) for s in STAGES for e in EXCS))
-        with ThreadPoolExecutor(16) as ex:
-            rows = list(ex.map(one, jobs))
+    """(stage, exception kind, coarse handling, observation) for the stages of the older automaton"""
+    rows = []
+    for r in observe_all():
+        if r["step"] in STAGES:
+            rows.append((r["step"], r["exc"], coarse(r["cell"]) if r["cell"] else "uncaught", r["obs"]))
+    order = {s: i for i, s in enumerate(STAGES)}
+    rows.sort(key=lambda t: order[t[0]])
     return rows
 
 
 @extract.register("Handlers")
 def gen_handlers() -> str:
-    rows = inject_all()
-    items = ["(.%s, .%s, .%s)" % (s, e, h) for s, e, h, _ in rows]
+    cs = cells()
+    old = ["(.%s, .%s, .%s)" % (s, e, coarse(cs[(s, e)])) for s in STAGES for e in EXCS]
+    new = ["(.%s, .%s, %s)" % (s, e, lean_cell(cs[(s, e)])) for s in STEPS for e in EXCS]
     return (
         HEADER
         + "import RefurbVerif.Model.Pipeline\nnamespace RefurbVerif.Generated\n\n"
-        + "/-- (stage, exception kind, what main() did) — observed by making the stage's function raise that exception -/\n"
-        + "def handlerRows : List (Stage × Exc × Handling) := [\n  " + ",\n  ".join(items) + "\n]\n\n"
-        + "def handlers : HandlerTable := lookupHandling handlerRows\n"
+        + "/-- (stage, exception kind, what main() did) — observed by making the stage raise that exception -/\n"
+        + "def handlerRows : List (Stage × Exc × Handling) := [\n  " + ",\n  ".join(old) + "\n]\n\n"
+        + "def handlers : HandlerTable := lookupHandling handlerRows\n\n"
+        + "/-- (step, exception kind, what main() did, in full) — real runs over a three-file project; per-file steps raise at the\n"
+        + "    middle file, `visit` between its two diagnostics -/\n"
+        + "def cellRows : List (Main.Step × Exc × Main.Cell) := [\n  " + ",\n  ".join(new) + "\n]\n\n"
+        + "def cells : Main.Table := Main.lookupCell cellRows\n"
         + "\nend RefurbVerif.Generated\n"
     )
